@@ -177,12 +177,44 @@ pub fn gen_ownership(rng: &mut Rng, tier: &Tier) -> Vec<Case> {
     cases
 }
 
+/// a small ownership workload for the Miri run of C19's thorough tier (the interpreter is ~100x slower there)
+pub fn gen_ownership_small(rng: &mut Rng) -> Vec<Case> {
+    let mut cases = Vec::new();
+    for kind in ["median", "mean", "max", "bounds", "convolve", "delay"] {
+        for n in [1usize, 3] {
+            let first = match kind {
+                "convolve" => format!("convolve c={} T=tracked", vec!["1"; n].join(",")),
+                k => format!("{} N={} T=tracked", k, n),
+            };
+            let mut c = vec![format!("new 1 {}", first)];
+            for i in 0..(n + 2) {
+                c.push(format!("f 1 {}", rng.range(-4, 4)));
+                if i == n {
+                    c.push("clone 1 2".into());
+                    c.push("gutsrt 1 3".into());
+                }
+            }
+            c.push("f 2 1".into());
+            c.push("reset 3".into());
+            c.push("f 3 2".into());
+            c.push("live".into());
+            c.push("drop 1".into());
+            c.push("drop 2".into());
+            c.push("drop 3".into());
+            c.push("live".into());
+            cases.push(c);
+        }
+    }
+    cases
+}
+
 pub fn generate(prop: &str, rng: &mut Rng, tier: &Tier) -> Vec<Case> {
     match prop {
         "C18" => gen_hampel(rng, tier),
         "C05p" => gen_sg(rng, tier),
         "C07" => gen_daub(rng, tier),
         "C19" => gen_ownership(rng, tier),
+        "C19m" => gen_ownership_small(rng),
         p => panic!("harness: no generator for property {}", p),
     }
 }
